@@ -71,6 +71,10 @@ impl<T: Desc> Desc for [T] {
     }
 }
 impl<T: Desc + ?Sized> Desc for Box<T> { fn desc(&self) -> String { format!("Box@{}->{}", rt::addr(self), Desc::desc(&**self)) } }
+/// A field that is itself a reference: the reference (its own address) and its referent are both part of the identity.
+pub type RSV = &'static rt::SpyVec;
+pub fn leak_sv(id: u32) -> RSV { Box::leak(Box::new(rt::SpyVec::new(id))) }
+impl Desc for &'static rt::SpyVec { fn desc(&self) -> String { format!("Ref@{}->{}", rt::addr(self), Desc::desc(&**self)) } }
 pub fn d<T: Desc + ?Sized>(x: &T) -> String { Desc::desc(x) }
 
 /// A write through a mutable reference (never goes through a spy trait impl).
@@ -82,6 +86,7 @@ impl Poke for OwnG<u64> { fn poke(&mut self, v: u64) { self.data.push(v); } }
 impl Poke for Vec<u64> { fn poke(&mut self, v: u64) { self.push(v); } }
 impl Poke for [u64] { fn poke(&mut self, v: u64) { let n = self.len(); self[0] = self[0].wrapping_mul(31) ^ v; self[n - 1] ^= v << 8; } }
 impl<T: Poke + ?Sized> Poke for Box<T> { fn poke(&mut self, v: u64) { Poke::poke(&mut **self, v) } }
+impl Poke for &'static rt::SpyVec { fn poke(&mut self, v: u64) { *self = leak_sv((v % 1000) as u32 + 1000); } }
 pub fn p<T: Poke + ?Sized>(x: &mut T, v: u64) { Poke::poke(x, v) }
 '''
 
@@ -133,6 +138,8 @@ KINDS = {k.name: k for k in [
          others=[("[T]", "[u64]")], self_asref=True, deref="[u64]", index=[IDX_USIZE, IDX_RANGE], iterable=True),
     Kind("ownT", ["OwnG<T>"], "OwnG<u64>", lambda i: "OwnG::<u64>::new(%d)" % i, gen="u64",
          others=[("[T]", "[u64]")], self_asref=True),
+    # a reference-typed field: without `forward` the derive hands out the field (a `&&SpyVec`), it does not look through it
+    Kind("refsv", ["&'static SpyVec", "RSV", "&'static rt::SpyVec"], "&rt::SpyVec", lambda i: "leak_sv(%d)" % i),
     Kind("boxT", ["Box<T>"], "Box<SpyVec>", lambda i: "Box::new(SpyVec::new(%d))" % i, gen="SpyVec",
          others=[("T", "SpyVec")], deref="SpyVec"),
 ]}
@@ -276,7 +283,7 @@ def gen_deref(rng, cid, n=None, k=None):
     n, k, named = pick_shape(rng, n, k)
     fwd = rng.choice(("none", "none", "struct", "field"))
     if fwd == "none":
-        kind = KINDS[rng.choice(("sv", "sv", "T", "vecT", "vec", "box", "u64", "own", "boxT"))]
+        kind = KINDS[rng.choice(("sv", "sv", "T", "vecT", "vec", "box", "u64", "own", "boxT", "refsv", "refsv"))]
     else:
         kind = KINDS[rng.choice(("sv", "sv", "box", "vec", "T", "vecT", "boxT"))]
     sel = pick_sel(rng, n, need_field_attr=(fwd == "field"), struct_args=(fwd == "struct"))
